@@ -360,7 +360,7 @@ func runInstallHistory(t *testing.T, rep *verifkit.Report, name string, hist []s
 	// reference state
 	highWater := int64(0)
 	rootContent := "" // content last verified under a root signature
-	installed := ""    // content of the installed artifact ("" none)
+	installed := ""   // content of the installed artifact ("" none)
 	key := fmt.Sprint(hist)
 	rep.State(key)
 	bad := func(k, text string) {
